@@ -365,6 +365,9 @@ pub struct RingView {
     base: *const u8,
     pub p: Params,
 }
+// a read-only view doing atomic loads on kernel-shared memory: fine from any thread
+unsafe impl Send for RingView {}
+
 impl RingView {
     pub fn find(p: Params) -> Option<RingView> {
         let maps = uring_maps();
